@@ -213,7 +213,9 @@ HELD_SRC = (
     "def c():\n"
     "    return a.force_local()() + b() + 2\n"
 )
-HELD_EVENTS = ["none", "rebind-G", "mutate-L", "rebind-h", "redefine-a", "redefine-a-identically", "rebind-G-and-back"]
+HELD_EVENTS = ["none", "rebind-G", "mutate-L", "rebind-h", "redefine-a", "redefine-a-identically", "rebind-G-and-back",
+               "run-bodies-and-define-an-unrelated-function"]
+HELD_NO_CHANGE = ("none", "redefine-a-identically", "rebind-G-and-back", "run-bodies-and-define-an-unrelated-function")
 HELD_HANDLES = ["a", "b", "c", "a.force_local", "a.partial", "b.ignore_result", "c.with_context_args", "clone-of-clone"]
 HELD_FIRST = [(), (0,), (3,), (3, 4, 5, 6, 7), (0, 1, 2, 3, 4, 5, 6, 7)]
 
@@ -234,18 +236,27 @@ def _held_event(prog, ev):
         d["G"] = 2
         d["_held"][3].version()
         d["G"] = 1
+    elif ev == "run-bodies-and-define-an-unrelated-function":
+        # executing code is not an edit (the interpreter may specialise the bytecode of what ran); defining another memento
+        # function afterwards makes every cached version be re-validated
+        for _ in range(40):
+            d["h"]()
+            d["a"].fn(1)
+            d["b"].fn()
+        prog.exec("@m.memento_function\ndef unrelated():\n    return 0\n")
 
 
 @obligation(
     "C03.held_handles_query_order",
-    covers=("event", "clone-queried-before-its-source", "nothing-queried-before-the-event"),
+    covers=("event", "clone-queried-before-its-source", "nothing-queried-before-the-event", "event-that-changes-nothing"),
     split={"ev": list(range(len(HELD_EVENTS))), "first": list(range(len(HELD_FIRST)))},
     bounds="program a (reads a global, a list global, a plain helper), b -> a, c -> a.force_local(), b; handles held in variables from the "
            "start: a, b, c and the modifier clones a.force_local(), a.partial(x=1), b.ignore_result(), c.with_context_args(..), "
            "a.force_local().ignore_result(); a subset of the handles (5 choices: none, a, one clone, all clones, all) is queried first; then "
            "one of %d events (global rebound / list mutated in place / helper rebound / a redefined / redefined identically / global rebound, "
-           "a clone queried, and bound back); then the 8 handles are queried in any rotation of any of 6 base orders (48) - the versions "
-           "equal those of the canonical order in a process that queried nothing before, and every clone has its source's version" % len(HELD_EVENTS),
+           "a clone queried, and bound back / the bodies executed 40 times and an unrelated memento function defined); then the 8 handles are queried in any rotation of any of 6 base orders (48) - the versions "
+           "equal those of the canonical order in a process that queried nothing before, every clone has its source's version, and an event "
+           "that leaves the program as it was leaves every version as it was" % len(HELD_EVENTS),
     variables="choice: event, first-queried subset, base order, rotation",
     budget_s={"quick": 170, "thorough": 600},
     choice_vars=4,
@@ -258,7 +269,10 @@ def held_handles_query_order(ev: int, first: int, base: int, rot: int):
         bases = [list(range(n)), list(reversed(range(n))), [3, 4, 5, 6, 7, 0, 1, 2], [7, 2, 5, 1, 4, 0, 6, 3], [1, 3, 0, 5, 2, 7, 4, 6], [6, 0, 4, 2, 7, 3, 1, 5]]
         order = bases[base][rot:] + bases[base][:rot]
         results = []
-        for (fs, od) in (((), list(range(n))), (HELD_FIRST[first], order)):
+        runs = [((), list(range(n)), ev), (HELD_FIRST[first], order, ev)]
+        if HELD_EVENTS[ev] in HELD_NO_CHANGE:
+            runs.append(((), list(range(n)), 0))  # the same program, nothing having happened
+        for (fs, od, ev_) in runs:
             sb = Sandbox(kinds="memory")
             clear_process_state()
             prog = Program("vpc03held")
@@ -269,7 +283,7 @@ def held_handles_query_order(ev: int, first: int, base: int, rot: int):
                 prog.mod.__dict__["_held"] = held
                 for i in fs:
                     held[i].version()
-                _held_event(prog, HELD_EVENTS[ev])
+                _held_event(prog, HELD_EVENTS[ev_])
                 vs = {}
                 for i in od:
                     vs[i] = held[i].version()
@@ -284,6 +298,9 @@ def held_handles_query_order(ev: int, first: int, base: int, rot: int):
         if min(order.index(i) for i in (3, 4, 7)) < order.index(0):
             cover("clone-queried-before-its-source")
         check("versions-independent-of-what-was-queried-when", results[0] == results[1], (HELD_EVENTS[ev], HELD_FIRST[first], order, results))
+        if HELD_EVENTS[ev] in HELD_NO_CHANGE:
+            cover("event-that-changes-nothing")
+            check("versions-unchanged-by-an-event-that-changes-nothing", results[1] == results[2], (HELD_EVENTS[ev], HELD_FIRST[first], order, results[1], results[2]))
         r = results[1]
         if HELD_EVENTS[ev] not in ("redefine-a", "redefine-a-identically"):
             # (a redefined function is a new object: handles on the old one keep describing the old one's code - not claimed here)
